@@ -1,9 +1,224 @@
-//! C20: not built yet.
-use crate::out::Out;
-use serde_json::Value;
+//! C20: `utils::arguments::parse_format_string_parameters` (with `Datatype::from`,
+//! `DatatypeProperties::get_size_from_data_type`) against the format-string grammar machine
+//! spec/FormatString.tla.
+//!
+//! One event per call: {"ev":"fmt","src","tokens","text","sizes","ok","result","panic",...}.
+//!   sub ""    (impl -> spec): token sequences drawn here over the FULL supported grammar (all 45
+//!             conversion/length forms, every flag, random widths/precisions, literal text biased to
+//!             characters that look like parts of a conversion, escapes); the text is the mechanical
+//!             concatenation (T_C20 re-checks text = Text(tokens)).
+//!   sub "tlc" (spec -> impl): behaviours of the generative machine enumerated/simulated by TLC
+//!             (file named by $VERIF_C20_BEHAVIOURS, one {"tokens","text"} per line); the TEXT printed
+//!             by TLC is fed to the real parser.
+//! Nothing is decided here; spec/trace/T_C20.tla judges result = Expect(tokens).
+use crate::out::{catch, Out};
+use crate::rng::Rng;
+use cwe_checker_lib::intermediate_representation::*;
+use cwe_checker_lib::utils::arguments::parse_format_string_parameters;
+use serde_json::{json, Value};
 
-pub fn gen(_out: &mut Out, _sub: &str) {}
+const SIZE_FIELDS: [&str; 9] = ["char", "double", "float", "integer", "long_double", "long_long", "long", "pointer", "short"];
 
-pub fn replay(_run: &[Value], _sub: &str) -> Vec<Value> {
-    Vec::new()
+fn props_from(sizes: &Value) -> DatatypeProperties {
+    let g = |k: &str| ByteSize::new(sizes[k].as_u64().unwrap());
+    DatatypeProperties {
+        char_size: g("char"),
+        double_size: g("double"),
+        float_size: g("float"),
+        integer_size: g("integer"),
+        long_double_size: g("long_double"),
+        long_long_size: g("long_long"),
+        long_size: g("long"),
+        pointer_size: g("pointer"),
+        short_size: g("short"),
+    }
+}
+
+fn cps(s: &str) -> Vec<u32> {
+    s.chars().map(|c| c as u32).collect()
+}
+
+fn string_of(cp: &[u32]) -> String {
+    cp.iter().map(|c| char::from_u32(*c).expect("code point")).collect()
+}
+
+fn cp_array(v: &Value) -> Vec<u32> {
+    v.as_array().unwrap().iter().map(|x| x.as_u64().unwrap() as u32).collect()
+}
+
+const FORMS: [&str; 45] = [
+    "c", "C", "d", "i", "o", "u", "x", "X", "e", "E", "f", "F", "g", "G", "a", "A", "n", "p", "s", "S", "hi", "hd", "hu",
+    "lf", "lg", "le", "la", "lF", "lG", "lE", "lA", "li", "ld", "lu", "lli", "lld", "llu", "Lf", "Lg", "Le", "La", "LF",
+    "LG", "LE", "LA",
+];
+
+/// Feature tag only (known-finding matching / counting): some escape is directly followed by literal
+/// text that reads like `[flag] digits [. digits] form`.
+fn esc_glued(tokens: &[Value]) -> bool {
+    for (i, t) in tokens.iter().enumerate() {
+        if t["k"] != "esc" {
+            continue;
+        }
+        let lit: Vec<char> = tokens[i + 1..]
+            .iter()
+            .take_while(|t| t["k"] == "lit")
+            .map(|t| char::from_u32(t["c"].as_u64().unwrap() as u32).unwrap())
+            .collect();
+        let mut j = 0;
+        if j < lit.len() && "+-#0".contains(lit[j]) {
+            j += 1;
+        }
+        // the real regex's \d is Unicode aware; so is this tag
+        while j < lit.len() && lit[j].is_numeric() { j += 1 }
+        if j < lit.len() && lit[j] == '.' { j += 1 }
+        while j < lit.len() && lit[j].is_numeric() { j += 1 }
+        let rest: String = lit[j..].iter().collect();
+        if FORMS.iter().any(|f| rest.starts_with(f)) {
+            return true;
+        }
+    }
+    false
+}
+
+/// Call the real parser on `text` and build the event.
+fn exec(src: &str, tokens: &Value, text: &[u32], sizes: &Value) -> Value {
+    let s = string_of(text);
+    let props = props_from(sizes);
+    let r = catch(move || {
+        parse_format_string_parameters(&s, &props)
+            .map(|v| v.into_iter().map(|(t, sz)| json!({"t": format!("{:?}", t), "s": u64::from(sz)})).collect::<Vec<Value>>())
+            .map_err(|_| ())
+    });
+    let (ok, result, panic) = match r {
+        Ok(Ok(v)) => (true, v, String::new()),
+        Ok(Err(())) => (false, Vec::new(), String::new()),
+        Err(p) => (false, Vec::new(), p),
+    };
+    let toks = tokens.as_array().unwrap();
+    json!({"ev": "fmt", "src": src, "tokens": tokens, "text": text, "sizes": sizes, "ok": ok, "result": result,
+           "panic": panic, "esc_glued": esc_glued(toks),
+           // for human readers only (non-printable characters shown as '?')
+           "str": string_of(text).chars().map(|c| if (' '..='~').contains(&c) { c } else { '?' }).collect::<String>()})
+}
+
+// ---------------------------------------------------------------------------------------------
+// generator over the full grammar
+// ---------------------------------------------------------------------------------------------
+fn lit_tok(c: char) -> Value {
+    json!({"k": "lit", "c": c as u32, "flag": [], "width": [], "prec": [], "spec": []})
+}
+fn esc_tok() -> Value {
+    json!({"k": "esc", "c": 0, "flag": [], "width": [], "prec": [], "spec": []})
+}
+fn digits(rng: &mut Rng, n: u64) -> String {
+    (0..n).map(|_| char::from(b'0' + rng.below(10) as u8)).collect()
+}
+fn conv_tok(rng: &mut Rng) -> (Value, String) {
+    let flag = if rng.chance(1, 2) { String::new() } else { rng.pick(&["+", "-", "#", "0"]).to_string() };
+    let width = if rng.chance(1, 2) { String::new() } else { let n = 1 + rng.below(3); digits(rng, n) };
+    let prec = match rng.below(20) {
+        0..=9 => String::new(),
+        10..=12 => ".".to_string(),
+        _ => { let n = 1 + rng.below(3); format!(".{}", digits(rng, n)) }
+    };
+    // forms 0..31 are locatable, 31.. are the long / long long / long double forms
+    let spec = if rng.chance(9, 10) { FORMS[rng.below(31) as usize] } else { FORMS[31 + rng.below(14) as usize] };
+    let text = format!("%{}{}{}{}", flag, width, prec, spec);
+    (json!({"k": "conv", "c": 0, "flag": cps(&flag), "width": cps(&width), "prec": cps(&prec), "spec": cps(spec)}), text)
+}
+
+fn lit_char(rng: &mut Rng) -> char {
+    const LOOKALIKE: &[u8] = b"dsxlhLcfniuoeEgGaApSnCXF.0123456789+-#";
+    const PLAIN: &[u8] = b" abyz/:,;=_()[]{}<>\"'\\\n\t!?*$&@^~|`";
+    match rng.below(20) {
+        0..=10 => LOOKALIKE[rng.below(LOOKALIKE.len() as u64) as usize] as char,
+        11..=16 => PLAIN[rng.below(PLAIN.len() as u64) as usize] as char,
+        17 => *rng.pick(&['ä', '€', '漢', '😀', '\u{663}', '\u{ff15}', '\u{0}', '\u{7f}', '\u{10ffff}']),
+        _ => {
+            // any scalar value except '%'
+            loop {
+                let c = rng.below(0x11_0000) as u32;
+                if let Some(ch) = char::from_u32(c) {
+                    if ch != '%' { return ch }
+                }
+            }
+        }
+    }
+}
+
+fn sizes(rng: &mut Rng) -> Value {
+    match rng.below(4) {
+        0 => json!({"char": 1, "double": 8, "float": 4, "integer": 4, "long_double": 16, "long_long": 8, "long": 8, "pointer": 8, "short": 2}),
+        1 => json!({"char": 1, "double": 8, "float": 4, "integer": 4, "long_double": 8, "long_long": 8, "long": 4, "pointer": 4, "short": 2}),
+        2 => {
+            // pairwise different, so a wrong table entry cannot hide
+            let mut v: Vec<u64> = (1..=16).collect();
+            rng.shuffle(&mut v);
+            Value::Object(SIZE_FIELDS.iter().zip(v).map(|(k, s)| (k.to_string(), json!(s))).collect())
+        }
+        _ => Value::Object(SIZE_FIELDS.iter().map(|k| (k.to_string(), json!(1 + rng.below(16)))).collect()),
+    }
+}
+
+fn random_case(rng: &mut Rng) -> (Value, Vec<u32>) {
+    let n = match rng.below(10) { 0 => rng.below(2), 1..=5 => 1 + rng.below(5), _ => 4 + rng.below(9) };
+    let mut tokens = Vec::new();
+    let mut text = String::new();
+    // per string: how literal-heavy / escape-heavy it is
+    let p_esc = *rng.pick(&[1u64, 3, 6]);
+    let p_lit = *rng.pick(&[4u64, 8, 12]);
+    for _ in 0..n {
+        let r = rng.below(20);
+        if r < p_esc {
+            tokens.push(esc_tok());
+            text.push_str("%%");
+        } else if r < p_esc + p_lit {
+            let c = lit_char(rng);
+            tokens.push(lit_tok(c));
+            text.push(c);
+        } else {
+            let (t, s) = conv_tok(rng);
+            tokens.push(t);
+            text.push_str(&s);
+        }
+    }
+    (Value::Array(tokens), cps(&text))
+}
+
+fn nontrivial(tokens: &Value) -> bool {
+    let t = tokens.as_array().unwrap();
+    t.iter().filter(|x| x["k"] == "conv").count() >= 2
+        || t.windows(2).any(|w| w[0]["k"] == "esc" && w[1]["k"] != "esc")
+}
+
+pub fn gen(out: &mut Out, sub: &str) {
+    let mut rng = Rng::new(out.seed ^ 0xC20);
+    if sub == "tlc" {
+        let path = std::env::var("VERIF_C20_BEHAVIOURS").expect("VERIF_C20_BEHAVIOURS");
+        let text = std::fs::read_to_string(&path).expect("behaviours file");
+        for line in text.lines() {
+            if line.trim().is_empty() { continue }
+            let b: Value = serde_json::from_str(line).expect("behaviour json");
+            let sz = sizes(&mut rng);
+            let ev = exec("tlc", &b["tokens"], &cp_array(&b["text"]), &sz);
+            let nt = nontrivial(&b["tokens"]);
+            out.emit(vec![ev], nt);
+        }
+        return;
+    }
+    let n = out.size(20_000, 250_000);
+    for _ in 0..n {
+        let (tokens, text) = random_case(&mut rng);
+        let sz = sizes(&mut rng);
+        let ev = exec("gen", &tokens, &text, &sz);
+        let nt = nontrivial(&tokens);
+        out.emit(vec![ev], nt);
+    }
+}
+
+pub fn replay(run: &[Value], _sub: &str) -> Vec<Value> {
+    run.iter()
+        .filter(|e| e["ev"] == "fmt")
+        .map(|e| exec(e["src"].as_str().unwrap_or("replay"), &e["tokens"], &cp_array(&e["text"]), &e["sizes"]))
+        .collect()
 }
